@@ -626,7 +626,39 @@ class Interp:
             return Num(base('U') / mL)
         if name == 'default_weight_volume_units':
             return S(self.opts.get('weight_volume_units', 'g/mL'))
+        # an attribute the configuration object derives from its settings in its constructor
+        # (`self.moles_storage_prefix = self.moles_storage_unit[:-3]`): evaluate that expression on the symbolic settings
+        derived = self._config_derived(name)
+        if derived is not None:
+            return derived
         return Other('config.' + name)
+
+    def _config_derived(self, name):
+        ci = self.model.classes.get('Config') if getattr(self, 'model', None) is not None else None
+        if ci is None or name in getattr(self, '_cfg_busy', ()):
+            return None
+        init = next((m for m in ci.node.body if isinstance(m, ast.FunctionDef) and m.name == '__init__'), None)
+        if init is None:
+            return None
+        found = [st for st in ast.walk(init) if isinstance(st, ast.Assign) and len(st.targets) == 1 and
+                 isinstance(st.targets[0], ast.Attribute) and isinstance(st.targets[0].value, ast.Name) and
+                 st.targets[0].value.id == 'self' and st.targets[0].attr == name]
+        if len(found) != 1:
+            return None
+        expr = found[0].value
+        # only expressions over the object's own settings and literals
+        if not all(isinstance(x, (ast.Attribute, ast.Name, ast.Constant, ast.Subscript, ast.Slice, ast.UnaryOp, ast.USub, ast.Call,
+                                  ast.Load, ast.BinOp, ast.Add, ast.Sub, ast.Mult, ast.Div)) for x in ast.walk(expr)) or \
+                any(isinstance(x, ast.Name) and x.id != 'self' and x.id != 'len' for x in ast.walk(expr)):
+            return None
+        self._cfg_busy = tuple(getattr(self, '_cfg_busy', ())) + (name,)
+        saved = self.env
+        self.env = Env({'self': Obj('config')}, None)
+        try:
+            return self.ev(expr)
+        finally:
+            self.env = saved
+            self._cfg_busy = self._cfg_busy[:-1]
 
     def subst_attr(self, o: Subst, attr, node):
         k = o.kind
